@@ -254,7 +254,7 @@ def eval_determinism(ctx, world, record=True):
 
 def plan(tier, seed):
     if tier == "quick":
-        return [{"task": "policy", "examples": 400} for _ in range(11)] + [{"task": "determinism", "examples": 100} for _ in range(5)]
+        return [{"task": "policy", "examples": 250} for _ in range(11)] + [{"task": "determinism", "examples": 60} for _ in range(5)]
     return [{"task": "policy", "examples": 8000} for _ in range(20)] + [{"task": "determinism", "examples": 2500} for _ in range(12)]
 
 
